@@ -72,7 +72,7 @@ func (w *World) skipSites(pkgPrefixes ...string) []skipSite {
 					if loop == nil || !pureSkipBlock(info, s.Body) {
 						return true
 					}
-					a := w.exprAtoms(fi, s.Cond)
+					a := w.exprAtomsDeep(fi, s.Cond)
 					var ks []string
 					for f := range a.Fields {
 						ks = append(ks, f)
